@@ -211,7 +211,8 @@ func (p *Protocol) startFast() {
 				}
 			case FinishPhase:
 				// whatever happens here, if phaser says it's finished we finish
-				toFinish()
+				// (also from another phase, e.g. a leaving node: WaitEnd must fire)
+				p.finish(justifs.ToJustifications())
 				return
 			}
 		case newDeal, ok := <-p.board.IncomingDeal():
